@@ -415,3 +415,191 @@ def script_len_at(script, idx):
         i += step
         k += 1
     return None
+
+
+# ------------------------------------------------------------------ structured scripts: serialiser and code-separator removal (C02 / C10)
+def rand_bits(P, ex, ctx, shape, prefix="b"):
+    """shape: nested list of element kinds -> (executor value list, reference bytes (Seq), reference bytes without code separators)"""
+    E = P.enums["ScriptBit"]
+    ops = P.enums["OpCodes"]
+    vals, ser, ser_nocs, kept = [], [], [], []
+    u8 = lambda v: z3.Unit(z3.BitVecVal(v, 8))
+    for i, k in enumerate(shape):
+        nm = f"{prefix}{i}"
+        if isinstance(k, tuple) and k[0] == "op":
+            vals.append(Enum("ScriptBit", "OpCode", E["OpCode"], [Enum("OpCodes", k[1], ops[k[1]])]))
+            ser.append(u8(ops[k[1]]))
+            if k[1] != "OP_CODESEPARATOR":
+                ser_nocs.append(u8(ops[k[1]]))
+                kept.append(clone(vals[-1]))
+        elif k == "push":
+            s, L = sym_bytes(ex, ctx, nm + "_data", 75)
+            ctx.assumptions.append(z3.UGE(L, 1))
+            vals.append(Enum("ScriptBit", "Push", E["Push"], [Bytes(s)]))
+            piece = [z3.Unit(z3.Extract(7, 0, L)), s]
+            ser += piece
+            ser_nocs += piece
+            kept.append(clone(vals[-1]))
+        elif isinstance(k, tuple) and k[0] == "pushdata":
+            code, width, cap = {1: ("OP_PUSHDATA1", 1, 255), 2: ("OP_PUSHDATA2", 2, 65535), 4: ("OP_PUSHDATA4", 4, (1 << 32) - 1)}[k[1]]
+            s, L = sym_bytes(ex, ctx, nm + "_data", cap)
+            vals.append(Enum("ScriptBit", "PushData", E["PushData"], [Enum("OpCodes", code, ops[code]), Bytes(s)]))
+            piece = [u8(ops[code])] + [z3.Unit(b) for b in le_bytes(z3.Extract(8 * width - 1, 0, L), width)] + [s]
+            ser += piece
+            ser_nocs += piece
+            kept.append(clone(vals[-1]))
+        elif isinstance(k, tuple) and k[0] == "if":
+            _, code, pass_shape, fail_shape = k
+            pv, ps, pn, pk = rand_bits(P, ex, ctx, pass_shape, nm + "p")
+            if fail_shape is None:
+                fv, fs, fn_, fk, fail_val, fail_kept = [], [], [], [], none(), none()
+            else:
+                fv, fs, fn_, fk = rand_bits(P, ex, ctx, fail_shape, nm + "f")
+                fail_val, fail_kept = some(ListV(fv)), some(ListV(fk))
+            vals.append(Enum("ScriptBit", "If", E["If"], [Enum("OpCodes", code, ops[code]), ListV(pv), fail_val]))
+            kept.append(Enum("ScriptBit", "If", E["If"], [Enum("OpCodes", code, ops[code]), ListV(pk), fail_kept]))
+            for dst, a_, b_ in ((ser, ps, fs), (ser_nocs, pn, fn_)):
+                dst.append(u8(ops[code]))
+                dst += a_
+                if fail_shape is not None:
+                    dst.append(u8(ops["OP_ELSE"]))
+                    dst += b_
+                dst.append(u8(ops["OP_ENDIF"]))
+        elif k == "coinbase":
+            s, L = sym_bytes(ex, ctx, nm + "_cb", 100)
+            vals.append(Enum("ScriptBit", "Coinbase", E["Coinbase"], [Bytes(s)]))
+            ser.append(s)
+            ser_nocs.append(s)
+            kept.append(clone(vals[-1]))
+        else:
+            raise KeyError(k)
+    return vals, ser, ser_nocs, kept
+
+
+SCRIPT_SHAPES = [
+    [("op", "OP_DUP"), "push", ("op", "OP_CODESEPARATOR"), ("pushdata", 1)],
+    [("pushdata", 2), ("pushdata", 4), ("op", "OP_CODESEPARATOR"), ("op", "OP_CODESEPARATOR")],
+    [("if", "OP_IF", [("op", "OP_1")], None), ("op", "OP_CODESEPARATOR")],
+    [("if", "OP_IF", [("op", "OP_1")], []), ("op", "OP_VERIFY")],
+    [("if", "OP_NOTIF", [], [("op", "OP_CODESEPARATOR"), "push"]), ("op", "OP_CHECKSIG")],
+    [("if", "OP_IF", [("if", "OP_IF", [("op", "OP_CODESEPARATOR")], [])], [("op", "OP_2")])],
+    ["coinbase"],
+    [],
+]
+
+
+def q_script_bits(env, name=None):
+    """Script::to_bytes / script_bits_to_bytes / get_script_length on structured scripts vs the script wire format, and
+    remove_codeseparators removes every OP_CODESEPARATOR (also inside conditionals) and nothing else"""
+    qr = QResult(name or "script_bits")
+    P = env.P
+    native_script_bits.ops = P.enums["OpCodes"]
+    f_ser = env.fn("script::Script::to_bytes")
+    f_rm = env.fn("script::Script::remove_codeseparators")
+    for shape in SCRIPT_SHAPES:
+        for what in ("to_bytes", "remove_codeseparators"):
+            if len(qr.violations) >= MAX_VIOLATIONS:
+                break
+            qr.cases += 1
+            ex = env.new_exec()
+
+            def setup(ex, shape=shape, what=what):
+                ctx = Ctx()
+                vals, ser, ser_nocs, kept = rand_bits(P, ex, ctx, shape)
+                ctx.ser, ctx.ser_nocs, ctx.kept = seq_concat(*ser) if ser else z3.Empty(SEQ), seq_concat(*ser_nocs) if ser_nocs else z3.Empty(SEQ), kept
+                ctx.script = Ptr([Struct("Script", [ListV(vals)])], 0)
+                return (f_ser if what == "to_bytes" else f_rm), [ctx.script], ctx
+            try:
+                results = ex.explore(setup)
+            except Unsupported as e:
+                qr.undecided.append(f"{what} {shape}: {e}")
+                continue
+            for r in results:
+                qr.paths += 1
+                if r.kind != "ok":
+                    qr.undecided.append(f"{what} {shape}: {r.kind} {r.msg}")
+                    continue
+                if what == "to_bytes":
+                    got, want = r.ret.s, r.ctx.ser
+                else:
+                    # serialise the separator-free script with the (separately checked) serialiser and compare with the reference
+                    ex2 = env.new_exec()
+                    ex2.base_assumptions = list(r.pc)
+                    ex2.len_vars = dict(getattr(ex, "len_vars", {}))
+                    scr = r.ctx.script.get()
+                    res2 = ex2.explore(lambda e2, scr=scr: (f_ser, [Ptr([clone(scr)], 0)], Ctx()))
+                    if len(res2) != 1 or res2[0].kind != "ok":
+                        qr.undecided.append(f"{what} {shape}: re-serialisation forked or failed")
+                        continue
+                    got, want = res2[0].ret.s, r.ctx.ser_nocs
+                st = {}
+                outs = SE.compare(list(r.pc), got, want, st)
+                qr.queries += st.get("queries", 0)
+                qr.solver_s += st.get("solver_s", 0.0)
+                if any(o[0] == "unknown" for o in outs):
+                    qr.undecided.append(f"{what} {shape}: solver unknown")
+                dif = [o for o in outs if o[0] == "differ"]
+                if not dif:
+                    continue
+                item = native_script_bits(shape, what)
+                item["message"] = f"{what} on a script of shape {shape}: " + ("serialised bytes differ from the script wire format" if what == "to_bytes" else "not exactly the OP_CODESEPARATORs were removed") + f" ({dif[0][3]})"
+                if item["reproduced"]:
+                    qr.violations.append(item)
+                else:
+                    qr.undecided.append(item["message"] + " — not reproduced natively: " + json.dumps(item["native"])[:200])
+            finish(qr, ex)
+    qr.samples.append({"obligation": qr.name, "shapes": [str(s) for s in SCRIPT_SHAPES]})
+    return qr
+
+
+def concrete_bits(shape, ops, tag=[0]):
+    """concrete bytes of a script of the given shape, and the same without code separators"""
+    ser, nocs = bytearray(), bytearray()
+    for k in shape:
+        tag[0] += 1
+        if isinstance(k, tuple) and k[0] == "op":
+            ser.append(ops[k[1]])
+            if k[1] != "OP_CODESEPARATOR":
+                nocs.append(ops[k[1]])
+        elif k == "push":
+            d = bytes([0xab, tag[0] % 200 + 1, 0xab])
+            p = bytes([len(d)]) + d
+            ser += p
+            nocs += p
+        elif isinstance(k, tuple) and k[0] == "pushdata":
+            n = {1: 80, 2: 300, 4: 70000}[k[1]]
+            d = bytes([0xab]) * n
+            hdr = bytes([0x4c, n]) if k[1] == 1 else bytes([0x4d]) + n.to_bytes(2, "little") if k[1] == 2 else bytes([0x4e]) + n.to_bytes(4, "little")
+            ser += hdr + d
+            nocs += hdr + d
+        elif isinstance(k, tuple) and k[0] == "if":
+            _, code, ps, fs = k
+            a, an = concrete_bits(ps, ops)
+            ser.append(ops[code])
+            nocs.append(ops[code])
+            ser += a
+            nocs += an
+            if fs is not None:
+                b, bn = concrete_bits(fs, ops)
+                ser.append(ops["OP_ELSE"])
+                nocs.append(ops["OP_ELSE"])
+                ser += b
+                nocs += bn
+            ser.append(ops["OP_ENDIF"])
+            nocs.append(ops["OP_ENDIF"])
+        else:
+            return None, None
+    return bytes(ser), bytes(nocs)
+
+
+def native_script_bits(shape, what):
+    from .executor import Program
+    ops = native_script_bits.ops
+    ser, nocs = concrete_bits(shape, ops)
+    if ser is None:
+        return {"native": {"skipped": "coinbase scripts are not constructible from bytes"}, "reproduced": False, "request": {}}
+    op = {"op": "script_roundtrip", "hex": ser.hex(), "remove_codeseparators": what != "to_bytes"}
+    req = {"tx": {"version": 1, "locktime": 0, "inputs": [], "outputs": []}, "ops": [op]}
+    nat = {p: C.Native.run(req, p)[0] for p in ("debug", "release")}
+    exp = (ser if what == "to_bytes" else nocs).hex()
+    return {"native": nat, "request": req, "op_index": 0, "expected": exp, "reproduced": any(v.get("ok") != exp for v in nat.values())}
